@@ -256,7 +256,7 @@ class Region(object):
         theta, phi = theta_phi.transpose()
         pix = hp.ang2pix(2**self.maxdepth, theta, phi, nest=True)
         pixelset = self.get_demoted()
-        result = np.in1d(pix, list(pixelset))
+        result = np.isin(pix, list(pixelset))
         # apply the mask and set the shonky values to False
         result[mask] = False
         return result
